@@ -34,6 +34,11 @@ static long next_copy_id;
 static long curtag[MAXID];
 static long maxid;
 
+/* userdata of registrations whose serializer is json_object_userdata_to_json_string: a string */
+static char STRUD[] = "\"t\"";
+/* ... json_object_double_to_json_string: a printf format */
+static char FMTUD[] = "%.2f";
+
 static long lookup(struct json_object *o)
 {
 	long i;
@@ -48,12 +53,13 @@ static long lookup(struct json_object *o)
 static void log_cb(struct json_object *o, void *ud)
 {
 	long id, tag;
-	if (ud) { id = UD_ID(ud); tag = UD_TAG(ud); }
+	int coded = ud && ud != (void *)STRUD && ud != (void *)FMTUD;
+	if (coded) { id = UD_ID(ud); tag = UD_TAG(ud); }
 	else { id = lookup(o); tag = id >= 0 ? curtag[id] : -1; }
 	evlen += (size_t)snprintf(evbuf + evlen, sizeof(evbuf) - evlen, "%s%c%ld.%ld", evlen ? "," : "",
 	                          in_setud ? 'u' : 'd', id, tag);
 	if (id >= 0 && id < MAXID && node[id] != o) evlen += (size_t)snprintf(evbuf + evlen, sizeof(evbuf) - evlen, "!wrongnode");
-	if (id >= 0 && id < MAXID && ud && curtag[id] != tag) evlen += (size_t)snprintf(evbuf + evlen, sizeof(evbuf) - evlen, "!stale");
+	if (id >= 0 && id < MAXID && coded && curtag[id] != tag) evlen += (size_t)snprintf(evbuf + evlen, sizeof(evbuf) - evlen, "!stale");
 	if (!in_setud && id >= 0 && id < MAXID) {
 		if (dead[id]) evlen += (size_t)snprintf(evbuf + evlen, sizeof(evbuf) - evlen, "!twice");
 		dead[id] = 1;
@@ -67,15 +73,18 @@ static int ser_cb(struct json_object *o, struct printbuf *pb, int level, int fla
 }
 
 /* one registration: userdata NULL or not, delete callback or not, through set_userdata (ser 0),
- * set_serializer with a NULL function (ser 1) or with a custom function (ser 2) */
+ * set_serializer with a NULL function (1), a custom function (2), the stock
+ * json_object_userdata_to_json_string (3; its userdata is a string) or
+ * json_object_double_to_json_string (4) */
 static void install(long id, struct json_object *o, long tag, int u, int d, int ser)
 {
-	void *ud = u ? UD(id, tag) : NULL;
+	void *ud = !u ? NULL : ser == 3 ? (void *)STRUD : ser == 4 ? (void *)FMTUD : UD(id, tag);
 	json_object_delete_fn *del = d ? log_cb : NULL;
 	if (id < 0 || id >= MAXID) return;
 	in_setud = 1;
 	if (ser == 0) json_object_set_userdata(o, ud, del);
-	else json_object_set_serializer(o, ser == 2 ? ser_cb : NULL, ud, del);
+	else json_object_set_serializer(o, ser == 2 ? ser_cb : ser == 3 ? json_object_userdata_to_json_string :
+	                                   ser == 4 ? json_object_double_to_json_string : NULL, ud, del);
 	in_setud = 0;
 	if (hascb[id] && !d) cb_alive--;
 	if (!hascb[id] && d) cb_alive++;
@@ -96,6 +105,8 @@ static int copy_cb(json_object *src, json_object *parent, const char *key, size_
 {
 	int rc = json_c_shallow_copy_default(src, parent, key, index, dst);
 	if (rc < 0) return rc;
+	/* the copy gets this harness's own userdata: keep only a serializer that ignores userdata */
+	if (src->_to_json_string != ser_cb) json_object_set_serializer(*dst, NULL, NULL, NULL);
 	if (next_copy_id < MAXID) {
 		long id = next_copy_id++;
 		node[id] = *dst; dead[id] = 0; hascb[id] = 1; cb_alive++; curtag[id] = 0;
@@ -130,8 +141,9 @@ static void dump(struct json_object *o, int depth)
 	if (depth > 200) { printf("DEEP"); return; }
 	k = json_object_get_type(o) == json_type_object ? 'o' : json_object_get_type(o) == json_type_array ? 'a' : 's';
 	if (o->_user_delete == log_cb) {
-		long id = o->_userdata ? UD_ID(o->_userdata) : lookup(o);
-		printf("%c%ld.%ld", k, id, o->_userdata ? UD_TAG(o->_userdata) : (id >= 0 ? curtag[id] : -1L));
+		int coded = o->_userdata && o->_userdata != (void *)STRUD && o->_userdata != (void *)FMTUD;
+		long id = coded ? UD_ID(o->_userdata) : lookup(o);
+		printf("%c%ld.%ld", k, id, coded ? UD_TAG(o->_userdata) : (id >= 0 ? curtag[id] : -1L));
 	} else
 		printf("%c?", k);
 	printf("%c#%u", json_object_get_userdata(o) ? 'u' : '-', (unsigned)o->_ref_count);
@@ -222,6 +234,14 @@ void run_case(char *rest)
 			else if (!strcmp(c, "newarr")) o = json_object_new_array();
 			else if (!strcmp(c, "newbool")) o = json_object_new_boolean(1);
 			else if (!strcmp(c, "newdbl")) o = json_object_new_double(1.5);
+			else if (!strcmp(c, "newdbls")) {
+				/* keeps the library's own registration: none of ours is installed */
+				o = json_object_new_double_s(1.5, "1.50");
+				if (!o) { printf("NEWFAIL"); return; }
+				if (id >= 0 && id < MAXID) { node[id] = o; dead[id] = 0; hascb[id] = 0; curtag[id] = -1; if (id > maxid) maxid = id; }
+				printf("%ld -", id);
+				continue;
+			}
 			else if (!strcmp(c, "newint") && na == 2) o = json_object_new_int64(strtoll(a[1], NULL, 10));
 			else if (!strcmp(c, "newstr") && na == 2) { char *z = cstr_of_hex(a[1]); o = json_object_new_string(z); (free)(z); }
 			else { printf("BADOP"); return; }
@@ -247,6 +267,19 @@ void run_case(char *rest)
 			struct json_object *o = H(a[1], &bad);
 			if (bad) { printf("DEADHANDLE"); return; }
 			ret = json_object_get(o) == o ? strtol(a[1] + 1, NULL, 10) : -99;
+		} else if (!strcmp(a[0], "setv") && na == 3) {
+			struct json_object *o = H(a[1], &bad);
+			const char *w = a[2];
+			if (bad || !o) { printf("DEADHANDLE"); return; }
+			if (!strcmp(w, "bool")) ret = json_object_set_boolean(o, 0);
+			else if (!strcmp(w, "int")) ret = json_object_set_int(o, 11);
+			else if (!strcmp(w, "int64")) ret = json_object_set_int64(o, -12);
+			else if (!strcmp(w, "uint64")) ret = json_object_set_uint64(o, 13);
+			else if (!strcmp(w, "inc")) ret = json_object_int_inc(o, 5);
+			else if (!strcmp(w, "dbl")) ret = json_object_set_double(o, 2.25);
+			else if (!strcmp(w, "str")) ret = json_object_set_string(o, "replaced by a longer string than before, to force a reallocation");
+			else if (!strcmp(w, "strlen")) ret = json_object_set_string_len(o, "ab", 2);
+			else { printf("BADOP"); return; }
 		} else if (!strcmp(a[0], "put") && na == 2) {
 			struct json_object *o = H(a[1], &bad);
 			if (bad) { printf("DEADHANDLE"); return; }
